@@ -191,7 +191,16 @@ def regfile_program(rng):
     st.append("wire dE : 4;")
     st.append("dE = [ (i10bytes)[76..78] == 0 : 0xF; 1 : %s; ];" % sel(8))
     st.append("reg_dstE = dE;")
-    st.append("reg_dstM = [ (i10bytes)[78..80] == 0 : dE; (i10bytes)[78..80] == 1 : REG_NONE; 1 : %s; ];" % sel(12))
+    if rng.random() < 0.25:
+        # a selector written as an unsized constant beyond 15: it is truncated to the port's four bits
+        k_ = rng.choice([16 + 1, 19, 0x22, 0x26, 0x13f, 32 + 14, 16, 31, 15 + 16 * 7])
+        st.append("reg_dstM = %s;" % rng.choice([str(k_), "0x%x" % k_, "%d + %d" % (k_ - 3, 3)]))
+        if rng.random() < 0.5:
+            st = [x for x in st if not x.startswith("reg_dstE = ")]
+            k2 = rng.choice([19, 0x22, 0x10 + 5, 47, 16])
+            st.append("reg_dstE = %d;" % k2)
+    else:
+        st.append("reg_dstM = [ (i10bytes)[78..80] == 0 : dE; (i10bytes)[78..80] == 1 : REG_NONE; 1 : %s; ];" % sel(12))
     st.append("reg_inputE = (0b11101110 .. (i10bytes)[16..72]);")
     st.append("reg_inputM = (0b01001101 .. (i10bytes)[20..76]);")
     st.append("wire seenA : 64; seenA = reg_outputA;")
